@@ -233,6 +233,12 @@ def modelLine (line : String) : Except String String := do
       let (v, ig) := validateBTP inp.cms b
       if v != (← reqBool ob "valid") || ig != (← reqBool ob "ignored") || b.caName inp.cms != (← optStr ob "ca") then
         diffs := diffs ++ [s!"policy {showL ns}/{showL name}: model valid={v} ignored={ig} ca={showL (b.caName inp.cms)}"]
+  -- 5b. processBackendTLSPolicies tracks EVERY policy (an ignored one as invalid)
+  let obsBtps ← (← reqArr obs "btps").mapM fun ob => do return (← reqStr ob "ns", ← reqStr ob "name")
+  for b in inp.btps do
+    if !obsBtps.contains (b.ns, b.name) then
+      diffs := diffs ++ [s!"policy {showL b.ns}/{showL b.name} is not tracked by the graph (model: valid={(validateBTP inp.cms b).1} ignored={(validateBTP inp.cms b).2})"]
+  let procs := processBtp inp.cms inp.btps
   -- 6. rules: selection, mismatch, and 7. VerifyTLS of the backend groups
   let groups ← reqArr obs "groups"
   let mut mismatchCount : List (List Char × Nat) := []
@@ -252,6 +258,12 @@ def modelLine (line : String) : Except String String := do
         | none => pure none
       if sel.map (fun b => (b.ns, b.name)) != implBtp then
         diffs := diffs ++ [s!"rule {showL route}#{idx}: selected policy model={sel.map (showL ·.name)} impl={implBtp.map (showL ·.2)}"]
+      -- createBackendRef: a selected policy that is not valid (invalid or ignored) invalidates the backendRef
+      match ← optNN ref "svc" with
+      | some (ns, name) =>
+        if port != 0 && backendTLSOf procs ns name = .invalid && (← reqBool ref "valid") then
+          diffs := diffs ++ [s!"rule {showL route}#{idx}: Service {showL ns}/{showL name} is targeted by an invalid or ignored policy (model: backendRef invalid) but the backendRef is valid"]
+      | none => pure ()
       pols := pols ++ [sel]
     let mm := refs.length > 1 && mismatch pols
     if mm then
@@ -338,6 +350,24 @@ def loopLine (line : String) : Except String String := do
       | none => s!"false///{showL (protocol r grpc)}"
       | some v => s!"true/{showL (trustedCert v)}/{showL v.hostname}/{showL (protocol r grpc)}"
     return cmp model s!"{← reqBool j "has"}/{showL (← reqStr j "tc")}/{showL (← reqStr j "name")}/{showL (← reqStr j "proto")}"
+  | "resolveseq" =>
+    let secrets ← (← reqArr j "secrets").mapM parseSecret
+    let keys ← (← reqArr j "keys").mapM fun k => do return (← reqStr k "ns", ← reqStr k "name")
+    let impl ← (← reqArr j "out").mapM (·.getBool?)
+    let m : List Bool := (resolveSeq secrets [] keys).map fun v => decide (v = .ok)
+    return if m = impl then "ok"
+      else if ((resolveSeqUnstored secrets [] keys).map fun v => decide (v = SecretRes.ok)) = impl then
+        s!"diff model={m} impl={impl} (the code behaves like a resolver that does not store the error of the malformed-pair branch)"
+      else s!"diff model={m} impl={impl}"
+  | "pemfiles" =>
+    -- Generate on a Configuration with several key pairs: every emitted key-pair file = cert, newline, key of ITS pair
+    let pairs ← (← reqArr j "pairs").mapM fun k => do return (⟨← reqStr k "id", ← reqStr k "cert", ← reqStr k "key"⟩ : KeyPair)
+    let files ← (← reqArr j "files").mapM fun f => do return (← reqStr f "path", ← reqStr f "content")
+    let want := pairs.map fun k => (pemFileName k.id, pem k.cert k.key)
+    let key := fun (f : List Char × List Char) => s!"{showL f.1}:{f.2.length}:{hash f.2}"
+    let bad := files.filter fun f => !want.contains f
+    return if sortStrs (want.map key) = sortStrs (files.map key) then "ok"
+      else s!"diff files that are not cert, newline, key of their own pair: {bad.map (showL ·.1)} (model={want.map (showL ·.1)} impl={files.map (showL ·.1)})"
   | "findbtp" =>
     let pols ← (enumFrom 0 (← reqArr j "pols")).mapM fun (i, p) => do
       return ({ id := i, ns := ← reqStr p "ns", name := ← reqStr p "name", ts := ← reqNat p "ts",
